@@ -145,6 +145,12 @@ def build(scn, P, E):
         fs.put(dest, b"XX" + payload["a"])
         fs.put("/m/keep.bin", payload["c"] + b"Z")
         tensors = [external("a", "w.bin", 2), mem("b", 1), external("c", "keep.bin", 0)]
+    elif scn == "own+twin":       # a second data file with the SAME relative name under another base directory (a model assembled from two loaded models)
+        fs.put(dest, b"XX" + payload["a"])
+        fs.mkdir_p("/n")
+        fs.put("/n/w.bin", b"YYY" + payload["c"] + b"Z")
+        first, third = external("a", "w.bin", 2), external("c", "w.bin", 3, base="/n")
+        tensors = [first, mem("b", 1), third] if not P.get("ord", 0) else [third, mem("b", 1), first]
     elif scn == "symlink":        # destination is a symlink into a sub-directory; the model reads through the link
         fs.mkdir_p("/m/store")
         fs.put("/m/store/real.bin", b"Q" + payload["a"] + payload["b"])
@@ -199,7 +205,7 @@ class _MaybePartial:
         file.write(self._real.tobytes())
 
 
-SCENARIOS = ["fresh", "foreign", "readonly", "own", "own+other", "symlink", "hardlink", "sharded", "sharded-collision"]
+SCENARIOS = ["fresh", "foreign", "readonly", "own", "own+other", "own+twin", "symlink", "hardlink", "sharded", "sharded-collision"]
 FAULTS = ["none", "fs", "tensor-before", "tensor-mid", "callback", "callback-interrupt", "tensor-exit"]
 FAULTS_THOROUGH = FAULTS + ["fs2"]     # two failing effects: the second one hits the error handling / clean-up of the first
 
@@ -224,6 +230,8 @@ def make_case(tier, key):
         ranges["cf"] = (0, 3)
     if "sharded" in scn:
         ranges["M"] = (1, 20)
+    if scn == "own+twin":
+        ranges["ord"] = (0, 1)
 
     def body(P):
         return run_scenario(scn, fault, P)
@@ -368,6 +376,8 @@ def run_scenario(scn, fault, P):
             if not (backed and replaced):
                 problem(f"external tensor {t.name} invalidated although its backing file {t.path} was not replaced")
         else:
+            # (the converse - a tensor that stays valid although its file was replaced - is not part of the statement: small external
+            #  tensors are copied to memory before the write and the orphaned objects keep pointing into the old layout)
             if not (backed and replaced):
                 try:
                     got = bytes(t.tobytes())
